@@ -1,7 +1,9 @@
 (* C05  Output uses only the opcodes of the requested protocol, with the right header. *)
 From Coq Require Import List NArith Bool.
 From PF Require Import Opcodes RefTable Config Sim Ref Lex Envelope Oracles.
-From PF.proofs Require Import Refine Run PropsR LexRT PropsB Examples.
+From PF Require Import Entropy Gen.
+From PF Require Import SrcStdlibP.
+From PF.proofs Require Import FinR Refine Run PropsR LexRT PropsB Examples.
 
 (* token part, for every run of the envelope: every token's opcode was introduced in protocol
    <= v according to CPython's table (ref_proto, RefTable.v), including the collapse tail; for
@@ -21,6 +23,29 @@ Theorem C05_bytes : forall c framed steps,
   oracle_C05 (c_version c) (serialize (run_tokens c framed steps)) = true.
 Proof. exact C05_B. Qed.
 Print Assumptions C05_bytes.
+
+(* END TO END, on the bit-exact model of the generator (level F, Gen.generate_internal - the model
+   suite S2 compares byte for byte with the implementation): whatever entropy source, protocol,
+   ranges, flags and mutators, the bytes it returns satisfy the byte-level oracle.  Through
+   FinR.F_in_R (every level-F run is a level-R run whose tokens serialise to the returned bytes).
+   names_ok / fmt_ok: the GLOBAL name table and the float formatter produce newline-free,
+   well-formed text (checked on the real table / formatter by suite S2 and SrcConsts);
+   cfg_small: the opcode range bounds are below 2^32-2; out_fits: the output is shorter than 2^64 *)
+Theorem C05_generated : forall e c src r,
+  names_ok e -> fmt_ok e -> cfg_small c -> safeb c = true ->
+  generate_internal e id_order c src = Ok r -> out_fits r ->
+  oracle_C05 (c_version c) (g_out r) = true.
+Proof. intros e c src r Hn Hf Hc Hs Hg Hfit. exact (gen_C05 e c src r Hn Hf Hc Hg Hfit Hs). Qed.
+Print Assumptions C05_generated.
+
+(* ... and with the name table of the CURRENT source (gen/SrcStdlib.v is regenerated from the file
+   emission.rs embeds; SrcStdlibP.src_names_ok decides names_ok over all of its entries) *)
+Theorem C05_generated_src : forall fmt c src r,
+  fmt_ok (src_env fmt) -> cfg_small c -> safeb c = true ->
+  generate_internal (src_env fmt) id_order c src = Ok r -> out_fits r ->
+  oracle_C05 (c_version c) (g_out r) = true.
+Proof. intros fmt c src r Hf Hc Hs Hg Hfit. exact (C05_generated (src_env fmt) c src r (src_names_ok fmt) Hf Hc Hs Hg Hfit). Qed.
+Print Assumptions C05_generated_src.
 
 Example C05_nonvacuous : safeb (ex_cfg V2 11) = true /\ run_R (ex_cfg V2 11) false ex_steps1.
 Proof. exact (conj (proj1 ex_safe) ex_run1). Qed.
